@@ -38,6 +38,15 @@
     {"tmp-symbol-shadowing-iterator", "variables x[3]; constraints for i=1:2; z=x(i); for i=3:3; z+x(i)>=0; end end end", NULL},
     {"nested-loops-and-sum", "constants n=3; variables x[n][n]; constraints for i=1:n; for j=i:n; x(i,j)=x(j,i); end; sum(k=1:n, x(i,k)^k)<=i; end end", NULL},
     {"empty-loop", "variables x; constraints for i=3:1; x>=i; end; x<=0; end", NULL},
+    // ---- a single range index on a matrix selects rows
+    {"single-range-on-matrix", "variables A[3][4]; constraints A(2:3)(1,2)=1; A(2:3)(2,4)<=2; end", "variables A[3][4]; constraints A(2,2)=1; A(3,4)<=2; end"},
+    {"single-range-on-tall-matrix", "variables A[4][2],y[2]; constraints A(1:3)*y=(1;2;3); end", "variables A[4][2],y[2]; constraints A(1:3,:)*y=(1;2;3); end"},
+    {"single-range-on-constant-matrix", "constants M[3][3]=((1,2,3);(4,5,6);(7,8,9)); variables x; constraints x=M(2:3)(2,2); end", "variables x; constraints x=8; end"},
+    // ---- an iterator where the text is evaluated while it is read (no value yet): rejected, not read as -1
+    {"iterator-in-interval-bound", "variables x[3]; constraints for i=1:3; x(i) in [i,i+1]; end end", NULL},
+    {"iterator-in-interval-factor", "variables x[3]; constraints for i=1:3; x(i)=[i,i]*2; end end", NULL},
+    {"iterator-right-of-in", "variables x[3]; constraints for i=1:3; x(i) in i; end end", NULL},
+    {"iterator-minus-one-is-a-value", "variables x[3]; constraints for i=-1:1; x(i+2)>=i; end end", "variables x[3]; constraints x(1)>=-1; x(2)>=0; x(3)>=1; end"},
     // ---- calls with constant arguments are folded when the text is read: every call has its own value
     {"constant-calls-difference", "function g(a) return a^2+1; end variables x,y; minimize x+(g(2)-g(5)); constraints y-g(1)*g(3)<=0; end", "function g(a) return a^2+1; end variables x,y; minimize x+(5-26); constraints y-2*10<=0; end"},
     {"constant-calls-two-arguments", "function h(a,b) return a*b-a; end variables x; constraints (h(2,3)-h(4,1))*x>=h(1,1)+h(3,5); end", "variables x; constraints (4-0)*x>=0+12; end"},
